@@ -70,7 +70,11 @@ def run_one(m, repo=None):
             res["status"] = "skipped"
             res["detail"] = err
             return res
-        mod = importlib.import_module("rules." + m["prop"])
+        props = [m["prop"]]
+        if m["kind"] == "preserve":
+            # behaviour-preserving edits must keep every property's rules silent
+            rdir = os.path.join(extract.VERIF, "rules")
+            props = sorted(f[:-3] for f in os.listdir(rdir) if f.startswith("C") and f.endswith(".py") and len(f) == 6)
         cfgs = []
         for cname in m["configs"]:
             out = os.path.join(tmp, "facts-%s.json" % cname)
@@ -80,18 +84,23 @@ def run_one(m, repo=None):
                 res["detail"] = log[-1500:]
                 return res
             cfgs.append(core.Cfg(cname, Facts(out)))
-        ctx = core.Ctx(m["prop"], cfgs, "thorough")
-        for c in cfgs:
-            ctx.cur = c
-            try:
-                mod.check(ctx, c)
-            except Exception as e:
-                ctx.fail(m["prop"] + ".R0", "-", "checker-crash", "%r %s" % (e, traceback.format_exc()[-800:]))
-        rules = sorted({f.rule for f in ctx.findings.values()})
         known = core.load_known()
-        rules_new = sorted({f.rule for k, f in ctx.findings.items() if (m["prop"], k) not in known})
+        rules_new = []
+        res["findings"] = []
+        for prop in props:
+            mod = importlib.import_module("rules." + prop)
+            if getattr(mod, "NOT_APPLICABLE", None):
+                continue
+            ctx = core.Ctx(prop, cfgs, "thorough")
+            for c in cfgs:
+                ctx.cur = c
+                try:
+                    mod.check(ctx, c)
+                except Exception as e:
+                    ctx.fail(prop + ".R0", "-", "checker-crash", "%r %s" % (e, traceback.format_exc()[-800:]))
+            rules_new += sorted({f.rule for k, f in ctx.findings.items() if (prop, k) not in known})
+            res["findings"] += ["%s: %s" % (k, f.message[:200]) for k, f in ctx.findings.items() if (prop, k) not in known][:6]
         res["rules"] = rules_new
-        res["findings"] = ["%s: %s" % (k, f.message[:200]) for k, f in ctx.findings.items() if (m["prop"], k) not in known][:6]
         if m["kind"] == "preserve":
             res["status"] = "silent" if not rules_new else "false-alarm"
         else:
